@@ -781,6 +781,8 @@ class ConfigParser(object):
       if len(tokens) == 1:
         raise ConfigParserException("Error when parsing [Species] section. Keys should be of the form 'SPECIES_LABEL.PROPERTY_NAME'. Invalid key found: '{}'".format(k))
       species, property_name = [t.strip() for t in tokens]
+      if not species or not property_name:
+        raise ConfigParserException("Error when parsing [Species] section. Keys should be of the form 'SPECIES_LABEL.PROPERTY_NAME'. Invalid key found: '{}'".format(k))
       v = self._config_parser["Species"][k]
       v = self._convert_species_type(property_name, v)
       d.setdefault(species, {})[property_name] = v
